@@ -159,7 +159,7 @@ theorem crash_only_in_refreshX (srt : Sorter) (sp : Spec) (w : World) (ev : Even
           · split
             · exact hc
             · split
-              · exact hc
+              · rw [checkAffected_crashed]; exact hc
               · split <;> exact hc
     | rpcResult t ok =>
       apply contra; simp only [stepXg]
